@@ -74,7 +74,7 @@ def coq_expr(case, obs):
     if op == "get_words":
         return "(get_words %s %d%%nat)" % (G, case["n"])
     if op == "is_finite":
-        return "(is_finite NFFUEL %s)" % G
+        return "(is_finite NFFUEL %s, option_map nf_vars_useful (to_normal_form NFFUEL %s))" % (G, G)
     if op in BOOLS:
         extra = ", cfg_member %s []" % G if op == "generate_epsilon" else ", true"
         return "(%s%s)" % (BOOLS[op].format(G=G), extra)
@@ -124,8 +124,13 @@ def judge_case(ctx, case, obs, mv):
                                          "duplicates": len(got) != len(set(got)), "hashseed": obs.get("_hs")})
         return
     if op == "is_finite":
-        if mv is not None and obs["bool"] != mv[1]:
-            ctx.fail("is_finite", case, {"impl": obs["bool"], "model": mv[1]})
+        fin, useful = mv
+        if useful is None or useful[1] is not True:
+            if case["g"].get("start") is not None and useful is not None:
+                raise RuntimeError("HARNESS: the normal form of the model has a useless variable (hypothesis of C12_is_finite fails) on %r" % (case,))
+            ctx.dist["is_finite:no-start-symbol(theorem hypothesis n/a)"] += 1
+        if fin is not None and obs["bool"] != fin[1]:
+            ctx.fail("is_finite", case, {"impl": obs["bool"], "model": fin[1]})
         return
     if op in BOOLS:
         m, o = mv
